@@ -442,6 +442,11 @@ func (key *PrivateKey) ECDSA() (*ecdsa.PrivateKey, error) {
 			return nil, fmt.Errorf("Unsupported elliptic curve %s", ttlv.EnumStr(tkey.RecommendedCurve))
 		}
 
+		// The private value must be in [1, N-1]: the standard library panics when it has to
+		// serialize a scalar that does not fit the curve size.
+		if tkey.D.Sign() <= 0 || tkey.D.Cmp(curve.Params().N) >= 0 {
+			return nil, errors.New("Invalid private key")
+		}
 		rkey := &ecdsa.PrivateKey{
 			PublicKey: ecdsa.PublicKey{
 				Curve: curve,
